@@ -53,6 +53,9 @@ camera_open(const struct DeviceManager* system,
 
     return self;
 Error:
+    // A device that was opened but lacks part of the interface must still be
+    // closed, otherwise it leaks. (camera_close() ignores NULL.)
+    camera_close(self);
     return 0;
 }
 
